@@ -342,6 +342,13 @@ pub fn suite_http(dir: &str, seed: u64, thorough: bool, st: &mut Stats) {
                 if items.len() < ranges.len() && !matches!(items.last(), Some(Err(_))) {
                     st.violation("C08", "the chunk stream ended early without an error", &line);
                 }
+                // no more failing transfers (refused or cut connections) than the retry budget: everything is delivered
+                // (C08_retries_suffice)
+                let failing = script.iter().filter(|s| matches!(s, SItem::Refuse | SItem::Cut(_))).count();
+                if script.iter().all(|s| matches!(s, SItem::Ok | SItem::Refuse | SItem::Cut(_))) && failing <= retries as usize {
+                    let want: Vec<Result<Vec<u8>, String>> = ranges.iter().map(|(o, s)| Ok(file[*o as usize..*o as usize + s].to_vec())).collect();
+                    if items != want { st.violation("C08", &format!("{} failing transfer(s) with a retry budget of {}: the reader gave up or delivered other bytes", failing, retries), &line); }
+                }
                 // resumed requests start at the first byte not yet received
                 for w in log.windows(2) {
                     let (a0, s0) = w[0];
